@@ -13,7 +13,7 @@ import (
 
 func init() {
 	register("C17", &propDef{
-		Run: checkC17,
+		Run:         checkC17,
 		Explanation: "Static decision of the structural clauses of C17 in lib/shellfuncsfile. (1) Candidates are only the results of fs.Glob over the directory's own FS with the filter patterns (top level only: no directory walk), collected, then slices.Sort-ed and slices.Compact-ed, and it is that sorted, de-duplicated slice which is ranged over. (2) In the per-file loop every operation on a name (fs.Stat, Open, conversion, appending to the buffer) is dominated by the false edge of a 'starts with \".\"' test on that very name, and opening/converting is further dominated by the regular-file edge; a skipped name continues the loop (it cannot fail the conversion). (3) Determinism: every maps.Keys result (map order is random) is passed through slices.Sort before any other use, no map is ranged directly, and the pattern chosen for a file is the first match in that sorted order — the matching loop is left on the first match. (4) Each converted part is newline-terminated by the function which converts one file (the terminator is appended when missing, on the path returning the filter's output), and parts are appended to one buffer in loop order by the loop's own goroutine. (5) A single file which matches no filter is returned unchanged with a nil error; several sources are converted in argument order. Semantics of fs.Glob/path.Match for odd names are trusted.",
 		Assumptions: []string{"fs.Glob with a pattern without '/' matches entries of the FS root only; slices.Sort/Compact sort and de-duplicate"},
 	})
